@@ -101,6 +101,12 @@ fn case_t<T: Sc>(rng: &mut Rng, case: u64, out: &mut CaseOut, ops: &OpLog) {
         spec.eps = Some(rng.logrange(1e-6, 0.5) * rng.sign());
         out.count("cases_with_user_threshold");
     }
+    if rng.chance(0.08) {
+        // a fit that must fail: one observation is NaN or infinite (the objective is not finite)
+        let i = rng.below(spec.y.r);
+        spec.y.set(i, 0, *rng.pick(&[f64::NAN, f64::INFINITY, f64::NEG_INFINITY]));
+        out.count("cases_with_a_non_finite_observation");
+    }
     let cfg = if rng.chance(0.5) { LmCfg::default_cfg() } else { LmCfg::random(rng) };
     let lm = cfg.make::<T>();
     out.seen("relation", if n < total { "N<M+P" } else if n == total { "N=M+P" } else if n == total + 1 { "N=M+P+1" } else { "N>M+P+1" });
@@ -236,7 +242,7 @@ pub fn case(rng: &mut Rng, case: u64, out: &mut CaseOut, ops: &OpLog) {
 }
 
 pub fn run(ctx: &Ctx) {
-    ctx.rule("shape sweep: M in 1..6 x P in 1..4 x N in 1..M+P+3 (so N<M+P, N=M+P, N=M+P+1 occur for every shape), zoo models with shared parameters, exact or slightly noisy data so that the fit itself succeeds and the statistics stage is reached; all weight classes; f32/f64; default and random optimizer settings; plus a model failure injected at every model call of the statistics stage (transient and persistent). Executed in child processes of the overflow-checked and the release build. distinct = hash(problem, N); every case is non-trivial (it reaches fit_with_statistics)");
+    ctx.rule("shape sweep: M in 1..6 x P in 1..4 x N in 1..M+P+3 (so N<M+P, N=M+P, N=M+P+1 occur for every shape), zoo models with shared parameters, exact or slightly noisy data so that the fit itself succeeds and the statistics stage is reached; all weight classes; f32/f64; default and random optimizer settings (whether the fit failed is judged by the optimizer's own termination report); 8 % of the cases carry one NaN/infinite observation, so that the fit must fail; plus a model failure injected at every model call of the statistics stage (transient and persistent). Executed in child processes of the overflow-checked and the release build. distinct = hash(problem, N); every case is non-trivial (it reaches fit_with_statistics)");
     ctx.assume("Ok is not demanded for N > M+P (a singular normal matrix may legitimately give Err); only Ok => identities and (N<=M+P or failed fit or failing model) => Err, never a panic");
     let n = ctx.tier.pick(4800, 240000);
     let wall = ctx.tier.pick(60.0, 1200.0);
